@@ -687,9 +687,10 @@ Proof.
   - (* Login *) injection H as <- <-.
     eapply KInv_ext; [apply (KInv_store st g (g_txn g) s i nooa (Some t) I)|cbn; congruence|].
     intros s' i'. rewrite Ek. reflexivity.
-  - (* AcceptResponse *) destruct k; injection H as <- <-.
+  - (* AcceptResponse *) destruct k; [destruct (response_fresh (now st) cond_nooa sess_nooa)| |]; injection H as <- <-.
     + eapply KInv_ext; [apply (KInv_store st g (g_txn g) s i (effective_nooa cond_nooa sess_nooa) (Some t) I)|cbn; congruence|].
       intros s' i'. rewrite Ek. reflexivity.
+    + apply Gen; try reflexivity. apply dbc_same; reflexivity.
     + apply Gen; try reflexivity. apply dbc_same; reflexivity.
     + apply Gen; try reflexivity. apply dbc_same; reflexivity.
   - (* Reset *) injection H as <- <-.
@@ -1894,8 +1895,9 @@ Lemma all_step w st g o st' ou :
 Proof.
   intros KI I H. destruct o; cbn [step] in H.
   - injection H as <- <-. apply GStep_store; [exact I|reflexivity].
-  - destruct k; injection H as <- <-.
+  - destruct k; [destruct (response_fresh (now st) cond_nooa sess_nooa)| |]; injection H as <- <-.
     + apply GStep_store; [exact I|reflexivity].
+    + apply GStep_same; [exact I|exact Logic.I].
     + apply GStep_same; [exact I|exact Logic.I].
     + apply GStep_same; [exact I|exact Logic.I].
   - injection H as <- <-. apply GStep_store; [exact I|reflexivity].
@@ -2370,4 +2372,39 @@ Example expiry_outputs :
       (run w_front 1000 [Login 0 0 1010 1; Tick 10; GetInfoFrom 0 0 true; Tick 1; GetInfoFrom 0 0 true;
                          GetIdentity 0 [] true; GetInfoFrom 0 0 false])
   = [OUnit; OUnit; OInfo (Some 1); OUnit; OExn TooOldErr; OIdentity [] [0]; OInfo (Some 1)].
+Proof. vm_compute. reflexivity. Qed.
+
+(* ================================================================ the expiry time a Response hands to the cache *)
+(* a Response whose SessionNotOnOrAfter or Conditions/@NotOnOrAfter has passed is refused and stores nothing *)
+Lemma stale_response_stores_nothing w st s i cn sn t :
+  response_fresh (now st) cn sn = false -> step w st (AcceptResponse s i cn sn t RGood) = (st, ORejected).
+Proof. intros F. cbn [step]. rewrite F. reflexivity. Qed.
+
+(* for every accepted Response (clock after the epoch) the time stored is the end of the session when the IdP
+   states one, whatever Conditions/@NotOnOrAfter says (earlier, equal, later, absent), else Conditions/@NotOnOrAfter *)
+Lemma accepted_expiry_is_session_end (n : Z) cn sn :
+  (0 < n)%Z -> response_fresh n cn sn = true -> effective_nooa cn sn = info_nooa cn sn.
+Proof.
+  intros P F. unfold response_fresh in F. apply andb_true_iff in F as [Fs _].
+  unfold effective_nooa, info_nooa. destruct sn as [t|]; [|reflexivity].
+  cbn [still_valid] in Fs. apply Z.leb_le in Fs. destruct (0 <? t)%Z eqn:E; [reflexivity|]. apply Z.ltb_ge in E. lia.
+Qed.
+
+Lemma accepted_response_stored w st s i cn sn t :
+  (0 < now st)%Z -> response_fresh (now st) cn sn = true ->
+  step w st (AcceptResponse s i cn sn t RGood) = (store st s i (info_nooa cn sn) (Some t), OAccepted).
+Proof. intros P F. cbn [step]. rewrite F, (accepted_expiry_is_session_end (now st) cn sn P F). reflexivity. Qed.
+
+(* the session ends BEFORE the assertion's validity: the information is returned at the session's end and not one
+   second later (and the source is then stale); the other way round it is kept past Conditions/@NotOnOrAfter
+   until the session's end; a Response that has passed either time stores nothing *)
+Example response_expiry_outputs :
+  map (fun x => snd (fst x))
+      (run w_front 1000 [AcceptResponse 0 0 (Some 1200%Z) (Some 1100%Z) 1 RGood; AcceptResponse 1 0 (Some 1100%Z) (Some 1200%Z) 2 RGood;
+                         AcceptResponse 2 0 (Some 1200%Z) (Some 999%Z) 3 RGood; AcceptResponse 2 0 (Some 999%Z) None 4 RGood;
+                         Tick 100; GetInfoFrom 0 0 true; Tick 1; GetInfoFrom 0 0 true; GetIdentity 0 [] true; Stale 0 [];
+                         GetInfoFrom 1 0 true; Tick 99; GetInfoFrom 1 0 true; Tick 1; GetInfoFrom 1 0 true;
+                         GetIdentity 2 [] true])
+  = [OAccepted; OAccepted; ORejected; ORejected; OUnit; OInfo (Some 1); OUnit; OExn TooOldErr; OIdentity [] [0];
+     OIssuers [0]; OInfo (Some 2); OUnit; OInfo (Some 2); OUnit; OExn TooOldErr; OIdentity [] []].
 Proof. vm_compute. reflexivity. Qed.
